@@ -904,7 +904,7 @@ pub fn main(args: &Args) {
     let workers = args.u64("workers", std::thread::available_parallelism().map(|n| n.get() as u64).unwrap_or(8)) as usize;
     let bins = Arc::new(Binaries::locate());
     let repo = PathBuf::from(std::env::var("VERIF_REPO").unwrap_or_else(|_| "/repo".into()));
-    let tasks = Arc::new(corpus::load(&repo, &verif_home()).into_iter().filter(|t| !t.refused).collect::<Vec<_>>());
+    let tasks = Arc::new(corpus::load(&repo, &verif_home()).into_iter().filter(|t| !t.refused && !t.large).collect::<Vec<_>>());
     if tasks.is_empty() {
         harness_error("no tasks");
     }
